@@ -65,7 +65,9 @@ def gen_scenario(seed, cfg):
                     m[f] = Fraction(specials[i])
                 m['m']['x'] = Fraction(specials[i])
         vals.append(env)
-    return {'seed': seed, 'kind': kind, 'term': term, 'policies': policies, 'valuations': vals,
+    # python -W error / PYTHONWARNINGS=error around the library call, in some runs
+    wmode = 'error' if sim.coin('warnings_error', 0.15) else 'default'
+    return {'seed': seed, 'kind': kind, 'term': term, 'policies': policies, 'valuations': vals, 'warnings': wmode,
             'digest_gen': sim.digest()}
 
 
@@ -244,6 +246,7 @@ def execute(sc, stats=None, only_policy=None, only_vals=None, real_set=False, tr
             stats['reject_samples'].append('%s: %s' % (type(e).__name__, gen.render(term) if not gen.contains(term, 'callv') else repr(term)))
         return violations
     count('inputs')
+    count('warnings_filter_' + str(sc.get('warnings', 'default')))
     in_text = str(probe)
     in_type = None if kind == 'pred' else probe.data_type
     # the reference tree: built once, never handed to the library, only read by the evaluators
@@ -263,12 +266,13 @@ def execute(sc, stats=None, only_policy=None, only_vals=None, real_set=False, tr
         policy = None
         exc = None
         try:
-            if real_set:
-                out = simplify(inp)
-            else:
-                policy = seams.OrderPolicy.from_json(pdoc, script=script)
-                with seams.simset_installed(policy):
+            with core.warnings_filter(sc.get('warnings')):
+                if real_set:
                     out = simplify(inp)
+                else:
+                    policy = seams.OrderPolicy.from_json(pdoc, script=script)
+                    with seams.simset_installed(policy):
+                        out = simplify(inp)
         except RecursionError:
             count('recursion_skipped')
             continue
@@ -531,6 +535,7 @@ def make_replay(sc, v):
         'valuation': gen.valuation_to_json(sc['valuations'][v['valuation_index']]) if v.get('valuation_index') is not None else None,
         'valuations_all': [gen.valuation_to_json(e) for e in sc['valuations']],
         'seed': sc.get('seed'),
+        'warnings_filter': sc.get('warnings', 'default'),
         'pythonhashseed': os.environ.get('PYTHONHASHSEED'),
         'how_to_replay': '/venv/bin/python /verif/check.py C08 --replay <this file>',
     }
@@ -541,7 +546,7 @@ def replay(doc):
     """Execute a replay file: literal term, literal permutations, literal valuations; no PRNG."""
     term = gen.tuplify(doc['term'])
     vals = [gen.valuation_from_json(e) for e in doc['valuations_all']]
-    sc = {'kind': doc['kind'], 'term': term, 'policies': [doc['policy']], 'valuations': vals}
+    sc = {'kind': doc['kind'], 'term': term, 'policies': [doc['policy']], 'valuations': vals, 'warnings': doc.get('warnings_filter', 'default')}
     if doc.get('perms_observed') is not None and not doc.get('real_set'):
         sc['perm_script'] = {'0': doc['perms_observed']}
     vs = execute(sc, {}, only_policy=None if doc.get('real_set') else 0, real_set=doc.get('real_set', False))
@@ -774,6 +779,7 @@ def main(argv):
         'runs_skipped_for_time': stats.get('runs_skipped_for_time', 0),
         'runs_abandoned_after_%ds_real_time' % int(RUN_HANG_S): {'count': stats.get('runs_hung', 0), 'inputs': stats.get('hung_samples', [])},
         'exactly_determined_constants': {'whole_inputs': stats.get('exact_constant_inputs', 0), 'constant_subexpressions': stats.get('exact_constant_subterms', 0)},
+        'inputs_by_warnings_filter': {k[16:]: v for k, v in sorted(stats.items()) if k.startswith('warnings_filter_')},
         'pythonhashseed': os.environ.get('PYTHONHASHSEED'),
         'real_vs_stub': {'real': ['hpl.rewrite.simplify and everything below it', 'hpl.parser', 'hpl.ast'],
                          'stub_or_model': ['reference evaluator (oracle)', 'SimSet iteration-order seam', 'valuation grid']},
